@@ -9,17 +9,22 @@ from ..loop import CTX, drive, Cancel, Suspend, rr_strategy
 from ..probes import Item, SrcState, Plan, make_source, VLock
 from . import C08, C11, C12, C14
 
-NEED = ("special_tee_cancellations", "special_lru_cancellations", "special_cached_property_cancellations",
+NEED = ("special_groupby_cancellations", "special_tee_cancellations", "special_lru_cancellations", "special_cached_property_cancellations",
         "special_exitstack_cancellations", "special_scoped_iter_cancellations")
 
 
 def cases(tier, seed, shard, nshards, rng):
     n = {"quick": 1200, "thorough": 50000}[tier] // nshards
     for i in range(max(5, n)):
-        kind = ["tee", "lru", "cached_property", "exitstack", "scoped"][i % 5]
+        kind = ["tee", "lru", "cached_property", "exitstack", "scoped", "groupby"][i % 6]
         if kind == "tee":
             yield {"kind": "tee", "len": rng.randint(0, 4), "n": rng.choice([2, 3]), "susp": rng.choice([1, 2]),
                    "flav": rng.choice(["async_class", "async_gen"]), "order": [rng.randrange(3) for _ in range(rng.randint(1, 8))]}
+        elif kind == "groupby":
+            yield {"kind": "groupby", "keys": [rng.randrange(3) for _ in range(rng.randint(0, 6))],
+                   "ops": [rng.choice(["adv", "adv", "grp"]) for _ in range(rng.randint(1, 7))],
+                   "flav": rng.choice(["async_class", "async_class", "async_gen"]), "susp": rng.choice([1, 2]),
+                   "key": rng.choice([None, "async"])}
         elif kind == "lru":
             nkeys = rng.randint(1, 3)
             yield {"kind": "lru", "c11": {"mode": "rr", "maxsize": rng.choice([None, 1, 2]),
@@ -93,6 +98,57 @@ def run_tee(case, stats):
             viols.append({"key": key, "msg": f"{head}: source still open after cancellation and handle.aclose() "
                                              f"(children advanced: {sorted(advanced)})"})
     return {"violations": viols, "evals": max(1, evals), "sigs": sigs}
+
+
+def run_groupby(case, stats):
+    viols, sigs = [], []
+
+    def execute(cancel_at):
+        CTX.reset()
+        st = SrcState(0, [Item(k, (0, i)) for i, k in enumerate(case["keys"])], Plan(case["susp"]), log=False)
+        src = make_source(st, case["flav"])
+        exc = Cancel() if cancel_at is not None else None
+        out = {}
+
+        async def akey(x):
+            await Suspend(("key", x.uid), 1)
+            return x.key
+
+        async def main():
+            gb = A.groupby(src, key=akey) if case["key"] == "async" else A.groupby(src)
+            group = None
+            try:
+                for op in case["ops"]:
+                    try:
+                        if op == "adv":
+                            _, group = await gb.__anext__()
+                        elif group is not None:
+                            await group.__anext__()
+                    except StopAsyncIteration:
+                        pass
+                out["end"] = "done"
+            except Cancel as got:
+                out["end"] = "cancel" if got is exc else "foreign-cancel"
+            finally:
+                await gb.aclose()
+
+        drive(main(), cancel_at=cancel_at, cancel_exc=exc)
+        return st, out, CTX.suspensions, list(CTX.foreign), list(CTX.token_owners)
+
+    _, _, nsus, _, _ = execute(None)
+    for i in range(1, nsus + 1):
+        st, out, _, foreign, owners = execute(i)
+        stats["special_groupby_cancellations"] += 1
+        sigs.append(("groupby", str(case), i))
+        head = f"groupby {case} cancel@{i}/{nsus}"
+        if foreign:
+            viols.append({"key": "groupby/foreign-suspension", "msg": f"{head}: {foreign[0]}"})
+        if out.get("end") != "cancel":
+            viols.append({"key": "groupby/cancel-not-propagated", "msg": f"{head}: ended {out.get('end')}"})
+        if not st.released():
+            viols.append({"key": "groupby/leak-after-cancel",
+                          "msg": f"{head}: source still open after cancellation (inside {owners[i - 1]}) and groupby.aclose()"})
+    return {"violations": viols, "evals": max(1, nsus), "sigs": sigs}
 
 
 def run_lru(case, stats):
@@ -257,5 +313,5 @@ def run_scoped(case, stats):
 
 
 def run_case(case, stats):
-    return {"tee": run_tee, "lru": run_lru, "cached_property": run_cached_property, "exitstack": run_exitstack,
+    return {"groupby": run_groupby, "tee": run_tee, "lru": run_lru, "cached_property": run_cached_property, "exitstack": run_exitstack,
             "scoped": run_scoped}[case["kind"]](case, stats)
